@@ -148,12 +148,24 @@ def run(rep, tier, replay):
     alpha = alphabet()
     adef = "{%s}" % ", ".join(tla_tok(t) for t in alpha)
     ndef = "{%s}" % ", ".join('"%s"' % n for n in NAMES)
-    behs, r = inproc.gen("Cli", dict(MaxTokens=2 if tier == "quick" else 3), ["Export"], "cli", defs=dict(Alphabet=adef, Names=ndef, Placements="{0, 1, 2}"),
+    behs, r = inproc.gen("Cli", dict(MaxTokens=2), ["Export"], "cli", defs=dict(Alphabet=adef, Names=ndef, Placements="{0, 1, 2}"),
                          timeout=3000, workers=8, xmx="12g")
     if behs is None:
         raise vlib.Infra("Cli.tla failed: " + r.text[-1500:])
     rep.add("states", r.distinct)
     rep.add("transitions", r.generated)
+    if tier == "thorough":
+        # three tokens over the tokens that interact (mode, output, level, --, -n with its argument), every name and placement
+        core = [t for t in alpha if t["text"] in ("-d", "-z", "-c", "-t", "-k", "-1", "-9", "-dc", "-n", "-n2", "--", "2", "--test", "--compress", "--best", "--bogus")]
+        b3, r3 = inproc.gen("Cli", dict(MaxTokens=3), ["Export"], "cli3", timeout=3000, workers=8, xmx="12g",
+                            defs=dict(Alphabet="{%s}" % ", ".join(tla_tok(t) for t in core), Names=ndef, Placements="{0, 1, 2, 3}"))
+        if b3 is None:
+            raise vlib.Infra("Cli.tla (three tokens) failed: " + r3.text[-1500:])
+        rep.add("states", r3.distinct)
+        rep.add("transitions", r3.generated)
+        three = [b for b in b3 if len(b["toks"]) == 3]
+        rep.cov["three_token_lines_in_model"] = len(three)
+        behs += three if len(three) <= 40000 else rng.sample(three, 40000)
     if tier == "quick" and len(behs) > 6000:
         # all one-token cases, a seeded sample of the two-token ones
         one = [b for b in behs if len(b["toks"]) <= 1]
